@@ -22,8 +22,8 @@ type c13 struct{ fw.Base }
 func init() { fw.Register(c13{}) }
 
 const (
-	quickHistories    = 1750
-	thoroughHistories = 30000
+	quickHistories    = 3000
+	thoroughHistories = 50000
 )
 
 func (c13) ID() string             { return "C13" }
@@ -47,7 +47,7 @@ func (c13) Assumptions() []string {
 	return []string{
 		"a Start instance's trigger is identified by the subscriber that created it (context value kept by xcontext.Detach) and by updater.Subscriptions() snapshots",
 		"a trigger is certainly gone for subscriber s when every subscriber of the key whose subscribe began before that of s was completed before s began (used for 'completed without cause')",
-		"quiescence is decided on the logical clock: the verdict 'leak' is only given after every gate is open, every action returned and the clock has not moved for 1.5 s; a clock still moving at the 20 s watchdog is inconclusive",
+		"quiescence is decided on the logical clock: the verdict 'leak' is only given after every gate is open, every action returned and the clock has not moved for 0.75 s; a clock still moving at the 20 s watchdog is inconclusive",
 		"porcupine timeout (2 s per key partition) is inconclusive",
 	}
 }
